@@ -183,8 +183,9 @@ pub(crate) fn run(seed: u64, n: u64, out: &mut Out) {
             // single-filter stream: half of the filtered queries carry exactly one of the five filters, so that each filter decides
             // the answer on its own (with all five drawn independently most answers are empty whatever a filter does)
             let (f_script, f_len, f_data, f_cap, f_block) = if with_filter && rng.chance(1, 2) {
-                match rng.below(5) {
-                    0 => (f_script, None, None, None, None),
+                // (transaction queries only know the script and the block range filter)
+                match if kind == 1 || kind == 2 { *rng.pick(&[0u64, 0, 4]) } else { rng.below(5) } {
+                    0 => (f_script.or_else(|| { let b = rng.pick(&w.pool).clone(); Some(b) }), None, None, None, None),
                     1 => (None, Some(f_len.unwrap_or([if rng.chance(1, 2) { 0 } else { rng.range(0, 40) }, rng.range(0, 47)])), None, None, None),
                     2 => (None, None, Some(f_data.unwrap_or([rng.range(0, 3), rng.range(0, 10)])), None, None),
                     3 => (None, None, None, Some(f_cap.unwrap_or([0, 1000])), None),
